@@ -48,7 +48,8 @@ MODELS = {
     "sphere": "sphere", "cylinder": "cylinder", "core_multi_shell": "core_multi_shell",
     "hardsphere": "hardsphere", "sphere@hardsphere": "sphere@hardsphere",
     "sphere@hayter_msa": "sphere@hayter_msa",
-    "sphere+cylinder": "sphere+cylinder", "broad_peak": "broad_peak", "_spherepy": "_spherepy",
+    "sphere+cylinder": "sphere+cylinder", "sphere*cylinder": "sphere*cylinder",
+    "broad_peak": "broad_peak", "_spherepy": "_spherepy",
     "pyplug": os.path.join(ASSETS, "pyplug.py"), "allpd": os.path.join(ASSETS, "allpd.py"),
     # a python form factor with a compiled structure factor: PyKernel and DllKernel under one ProductKernel
     "pyplug@hardsphere": os.path.join(ASSETS, "pyplug.py") + "@hardsphere",
@@ -117,6 +118,11 @@ PARS = {
         "def": {},
         "pd": {"A_radius_pd": 0.1, "A_radius_pd_n": 5, "B_length_pd": 0.1, "B_length_pd_n": 4,
                "A_scale": 0.3, "B_scale": 0.7},
+    },
+    "sphere*cylinder": {
+        "def": {},
+        "pd": {"A_radius_pd": 0.1, "A_radius_pd_n": 5, "B_length_pd": 0.1, "B_length_pd_n": 4},
+        "other": {"A_radius": 30.0, "B_radius": 12.0, "B_length": 250.0, "background": 0.0},
     },
     "broad_peak": {
         "def": {},
@@ -225,7 +231,7 @@ def prepare(tier):
                            sesans, weights)
     import sasmodels.models  # noqa: F401
     for name in MODELS.values():
-        for part in name.replace("+", "@").split("@"):
+        for part in name.replace("+", "@").replace("*", "@").split("@"):
             if not part.endswith(".py"):
                 __import__("sasmodels.models." + part)
     if tier == "thorough":
@@ -835,7 +841,8 @@ def gen_history(w, n_ops):
             keys = [x for x in keys if x.split("#")[0] != "pd4"]
         pars = w.choice(keys)
         fn = "Fq" if (model in FQ_MODELS and w.random() < 0.3) else "Iq"
-        if model in ("sphere@hardsphere", "sphere@hayter_msa", "sphere+cylinder") and w.random() < 0.5:
+        if model in ("sphere@hardsphere", "sphere@hayter_msa", "sphere+cylinder", "sphere*cylinder",
+                     "pyplug@hardsphere") and w.random() < 0.5:
             fn = "IqR"
         ops.append({"op": "call", "k": k["id"], "model": model, "fn": fn, "pars": pars,
                     "cutoff": w.choice(CUTOFFS), "mono": w.random() < 0.1})
